@@ -94,7 +94,7 @@ def layout(kind):
         if kind == "C":
             return np.ascontiguousarray(a).copy()
         if kind == "F":
-            return np.asfortranarray(a).copy()
+            return np.array(a, order="F", copy=True)
         if kind == "neg":
             sl = tuple(slice(None, None, -1) for _ in range(a.ndim))
             return np.ascontiguousarray(a[sl])[sl]
@@ -118,7 +118,9 @@ def result_value(r):
         return ("screen", np.array(r.scrn, copy=True))
     if hasattr(r, "make_covariance_matrix"):
         m = np.array(r.make_covariance_matrix(), copy=True)
-        return ("covmat", m, np.array(r.make_tomographic_reconstructor(1e-6), copy=True))
+        rec = np.array(r.make_tomographic_reconstructor(1e-6), copy=True)
+        again = np.array(r.make_covariance_matrix(), copy=True)        # the same call on the same object: no state may carry over
+        return ("covmat", m, rec, again)
     return r
 
 
@@ -233,6 +235,10 @@ def check_callable(ctx, aotools, name, fn, calls, rng, others):
         if base is None:
             continue
         val, args, kwargs = base
+        if isinstance(val, tuple) and len(val) == 4 and isinstance(val[0], str) and val[0] == "covmat":
+            ctx.count("determinism_checks")
+            ctx.check(deep_equal(val[1], val[3]), "not_deterministic:make_covariance_matrix:repeated_on_one_object",
+                      "make_covariance_matrix() called twice on one object returns different matrices", {"callable": name, "recipe": ci})
         # determinism / no hidden state: an unrelated call in between, then the same call again on equal arguments
         if call["seeded"]:
             oname, (ofn, ocalls) = others[int(rng.integers(0, len(others)))]
